@@ -82,8 +82,8 @@ impl Terminal for RecTerm {
 
 // ------------------------------------------------------------------ alphabet
 
-pub const KIND_NAMES: [&str; 11] = [
-    "blank", "a", "a/red", "blank/red", "blank/underline", "wide", "wide/red", "img1x1", "img1x2", "img1x1'", "glyph1x2",
+pub const KIND_NAMES: [&str; 12] = [
+    "blank", "a", "a/red", "blank/red", "blank/underline", "wide", "wide/red", "img1x1", "img1x2", "img1x1'", "glyph1x2", "img2x1",
 ];
 
 pub struct Alphabet {
@@ -107,6 +107,7 @@ impl Alphabet {
         let i1 = image(2, 2, 0);
         let i2 = image(2, 4, 1);
         let i1b = image(2, 2, 0);
+        let i3 = image(4, 2, 2);
         let glyph = Glyph::new(
             surf_n_term::rasterize::Path::empty(),
             Default::default(),
@@ -120,6 +121,7 @@ impl Alphabet {
             (7, i1.data().as_ptr() as usize),
             (8, i2.data().as_ptr() as usize),
             (9, i1b.data().as_ptr() as usize),
+            (11, i3.data().as_ptr() as usize),
         ];
         let cells = vec![
             Cell::default(),
@@ -133,6 +135,7 @@ impl Alphabet {
             Cell::new_image(i2),
             Cell::new_image(i1b),
             Cell::new_glyph(red(), glyph),
+            Cell::new_image(i3),
         ];
         Alphabet { cells, ptrs }
     }
@@ -146,6 +149,7 @@ impl Alphabet {
         match kind {
             7 | 9 => Some((1, 1)),
             8 | 10 => Some((1, 2)),
+            11 => Some((2, 1)),
             _ => None,
         }
     }
@@ -585,7 +589,7 @@ pub fn grids(tier: Tier) -> Vec<(Grid, usize, bool)> {
             (g(1, 2, &all), 6, true),
             (g(1, 3, &all), 6, false),
             (g(1, 4, &seven), 6, false),
-            (g(2, 2, &seven), 6, false),
+            (g(2, 2, &vec![0, 1, 3, 6, 7, 8, 11]), 6, false),
             (g(1, 6, &long), 6, false),
         ],
         Tier::Thorough => vec![
@@ -593,8 +597,8 @@ pub fn grids(tier: Tier) -> Vec<(Grid, usize, bool)> {
             (g(1, 2, &all), 8, true),
             (g(1, 3, &all), 8, true),
             (g(1, 4, &nine), 8, true),
-            (g(2, 2, &nine), 8, true),
-            (g(2, 3, &vec![0, 1, 3, 6, 8]), 8, false),
+            (g(2, 2, &vec![0, 1, 2, 3, 4, 5, 6, 7, 8, 11]), 8, true),
+            (g(2, 3, &vec![0, 1, 6, 8, 11]), 8, false),
             (g(1, 6, &long), 8, true),
             (g(1, 7, &long), 8, false),
         ],
@@ -652,7 +656,7 @@ pub fn replay(w: &Value) -> Result<(bool, String), String> {
     let alpha = Alphabet::new();
     let gh = w["grid"][0].as_u64().ok_or("grid")? as usize;
     let gw = w["grid"][1].as_u64().ok_or("grid")? as usize;
-    let g = Grid { h: gh, w: gw, kinds: (0..11).collect() };
+    let g = Grid { h: gh, w: gw, kinds: (0..12).collect() };
     let mut surfs: Vec<Vec<u8>> = vec![];
     let mut hist: Vec<Op> = vec![];
     let parse_surface = |v: &Value| -> Result<Vec<u8>, String> {
